@@ -47,6 +47,18 @@ Qed.
 Lemma mod_eq_iff_key_eq : C20_mod_eq_iff_key_eq_stmt.
 Proof. intros b m1 m2. unfold mod_eq, mod_key. apply mat_eqb_eq. Qed.
 
+Lemma mod_mixed_arity : C20_mod_mixed_arity_stmt.
+Proof.
+  intros m1 m2.
+  assert (K : forall a b, confusion_matrix 2 a <> confusion_matrix 3 b).
+  { intros a b H. apply (f_equal (@length _)) in H. unfold confusion_matrix in H. cbn [Nat.eqb] in H.
+    destruct (m_path b); cbn [length] in H; discriminate. }
+  repeat split.
+  - unfold mod_eq2. destruct (mat_eqb _ _) eqn:E; [|reflexivity]. apply mat_eqb_eq in E. exfalso. exact (K _ _ E).
+  - unfold mod_eq2. destruct (mat_eqb _ _) eqn:E; [|reflexivity]. apply mat_eqb_eq in E. exfalso. exact (K _ _ (eq_sym E)).
+  - unfold mod_key. apply K.
+Qed.
+
 Lemma Qc_compl_compl a : 1 - (1 - a) = a.
 Proof. ring. Qed.
 
